@@ -92,6 +92,8 @@ def run(ch: Checker) -> None:
     ch.rule('C14.4', 'connect_upstream raises HttpProtocolException when host or port is missing, before any connection is made', 1)
     ch.rule('C14.5', 'new_socket_connection: ValueError is the only exception swallowed around ip_address(); fall-through = socket.create_connection(<same addr>); AF_INET for version 4 else AF_INET6 '
                      'with connect((host, port, 0, 0))', 2)
+    ch.rule('C14.7', 'Url.from_bytes: the authority handed to Url._parse is the text before the FIRST slash of what follows the scheme (split/partition/find from offset 0), '
+                     'so nothing in the path or query can be taken for the authority', 1)
     ch.rule('C14.6', 'Url._parse: every returned host derives from the text after the userinfo (never from the raw input); userinfo is split on the first colon only', 2)
 
     # ---------------- C14.1
@@ -277,6 +279,9 @@ def run(ch: Checker) -> None:
     ch.check(hts == ['ValueError'], 'C14.5', nsc, 'only ValueError swallowed', 'only "not an IP literal" is swallowed', 'new_socket_connection swallows %s: a failed connect to a literal address falls through to name resolution' % hts)
     ch.check(bad5 is None, 'C14.5', nsc, 'family / fall-through', 'v4/v6 sockets by ip.version; fall-through resolves the same address', bad5[0] if bad5 else '', witness=bad5[1] if bad5 else None)
 
+    # ---------------- C14.7
+    _authority_split(ch, ce)
+
     # ---------------- C14.6
     up = prog.own_method('Url', '_parse')
     gu = cfg_of(up, prog)
@@ -308,3 +313,72 @@ def run(ch: Checker) -> None:
               and 'split_at[0]' in norm(c.func.value)]
     oku = len(usplit) == 1 and ((usplit[0].func.attr == 'split' and len(usplit[0].args) == 2 and norm(usplit[0].args[1]) == '1') or usplit[0].func.attr == 'partition')  # type: ignore[attr-defined]
     ch.check(oku, 'C14.6', up, 'userinfo split', 'userinfo split on the first colon only', 'userinfo is split with %s: a missing password or a colon inside the password makes a valid target unparseable' % [norm(c) for c in usplit])
+    # ---------------- C14.8 (shared)
+    ch.import_rules('C02', {'C02.2': 'C14.8'}, 'the path the origin receives is the request target\'s path, unedited')
+
+
+def _authority_split(ch: Checker, ce: ConstEval) -> None:
+    prog = ch.prog
+    fb = prog.own_method('Url', 'from_bytes')
+    m = fb.module
+    g = cfg_of(fb, prog, exc_edges=False)
+    good = 0
+    bad = None
+    undec = None
+
+    def is_slash(e: ast.AST) -> bool:
+        return ce.try_eval(m, e) == b'/'
+
+    def offending_search(e: ast.AST) -> Optional[str]:
+        """a search for the slash that does not start at offset 0 / runs from the right, anywhere inside e"""
+        for c in ast.walk(e):
+            if isinstance(c, ast.Call) and isinstance(c.func, ast.Attribute) and c.args and is_slash(c.args[0]):
+                if c.func.attr in ('rfind', 'rindex', 'rsplit', 'rpartition'):
+                    return norm(c)
+                if c.func.attr in ('find', 'index') and len(c.args) >= 2 and ce.try_eval(m, c.args[1]) != 0:
+                    return norm(c)
+        return None
+
+    for p in fpaths(g):
+        ch.paths += 1
+        if p.exit_kind != 'return':
+            continue
+        sym = Sym(p)
+        fd = allfacts(p)
+        for i, st in p.stmts():
+            for c in walk_no_nested(st):
+                if not (isinstance(c, ast.Call) and attr_chain(c.func) in ('Url._parse', 'cls._parse') and c.args):
+                    continue
+                x = sym.value(c.args[0], i)
+                if isinstance(x, ast.Name):
+                    continue            # authority-form / no scheme: the whole input is the authority (CONNECT host:port)
+                off = offending_search(x)
+                for k, v in allfacts(p, i).items():
+                    try:
+                        off = off or offending_search(ast.parse(k, mode='eval').body)
+                    except SyntaxError:
+                        pass
+                if off:
+                    bad = ('the authority is cut out with %s, a search for "/" that does not start at the beginning of the text after the scheme: a "/" (or "@") inside the path or query '
+                           'moves the cut, and text from the path/query is parsed as the destination host' % off, p.describe(20))
+                    continue
+                ok = False
+                if isinstance(x, ast.Subscript) and not isinstance(x.slice, ast.Slice) and ce.try_eval(m, x.slice) == 0 and isinstance(x.value, ast.Call) \
+                        and isinstance(x.value.func, ast.Attribute) and x.value.func.attr in ('split', 'partition') and x.value.args and is_slash(x.value.args[0]):
+                    ok = True
+                elif isinstance(x, ast.Subscript) and isinstance(x.slice, ast.Slice) and x.slice.lower is None and isinstance(x.slice.upper, ast.Call) \
+                        and isinstance(x.slice.upper.func, ast.Attribute) and x.slice.upper.func.attr in ('find', 'index') and norm(x.slice.upper.func.value) == norm(x.value) \
+                        and x.slice.upper.args and is_slash(x.slice.upper.args[0]):
+                    ok = True
+                elif any(v is True and kk.replace(' ', '').endswith('.find(SLASH)==-1') for kk, v in fd.items()) or any(v is False and kk.replace(' ', '').startswith('SLASHin') for kk, v in fd.items()):
+                    ok = True
+                if ok:
+                    good += 1
+                else:
+                    undec = norm(x)[:80]
+    if bad:
+        ch.bad('C14.7', fb, 'authority split', bad[0], witness=bad[1])
+    elif good and not undec:
+        ch.ok('C14.7', fb, 'authority split', 'the authority is the text before the first "/" on %d path(s)' % good)
+    else:
+        ch.skip('C14.7', fb, 'authority split', 'how the authority is separated from the path (%s) is not one of the recognised forms; not decided' % undec)
